@@ -792,6 +792,7 @@ package astits
 //@   loop 0 invariant itOK(i) && old(i.offset) <= i.offset && i.offset <= len(i.bs) + 0x1000 && (cap(o) == 0 || loopfresh(o))
 //@   opt sweep:C03
 //@   ensures [C03] bound: err == nil ==> old(i.offset) <= i.offset && i.offset <= len(i.bs) + 0x10000
+//@   loop 0 assert [C14,C13] stride: i.offset == pre(i.offset) + 2 + int(i.bs[pre(i.offset) + 1])
 
 //@ func parseEITSection
 //@   requires itOK(i)
@@ -1174,3 +1175,231 @@ package astits
 // A Muxer option is library code handed a *Muxer: it may set any of its fields.
 //@ extern type:func__astits.Muxer_
 //@   modifies all(arg0)
+
+// ---------------------------------------------------------------------------
+// descriptor.go, write side: the length announced for a descriptor loop is the sum of what each descriptor occupies
+// (2 bytes of tag and length plus the body length, no 8-bit overflow on the way).
+//@ func calcDescriptorsLength
+//@   requires 0 <= len(ds) && allocated(ds) && forall(k, 0, len(ds), ds[k] != nil)
+//@   opt nopre
+//@   loop 0 invariant [C14,C13,C09] idx: rangeindex == iter - 1 && iter <= len(ds)
+//@   loop 0 assert [C14,C13,C09] step: length == pre(length) + 2 + u16(retof(calcDescriptorLength, 0))
+
+// BEGIN generated descriptor write contracts (gen_descriptor_contracts.py)
+//@ func calcDescriptorAC3Length
+//@   requires d != nil ==> okAC3(d)
+//@   ensures [C14,C13,C09] len: result == ite(d == nil, 0, u8(lenAC3(d)))
+//@ func writeDescriptorAC3
+//@   requires aligned(w) && 0 <= wN(w) && wN(w) < 0x400000000000 && okAC3(d)
+//@   modifies writer(w)
+//@   ensures [C14,C13,C09] body: wN(w) == old(wN(w)) + lenAC3(d) && aligned(w) && result == nil
+//@   ensures [C14,C13,C09] prefix: wPrefix(w)
+
+//@ func calcDescriptorAVCVideoLength
+//@   requires d != nil ==> okAVCVideo(d)
+//@   ensures [C14,C13,C09] len: result == ite(d == nil, 0, u8(lenAVCVideo(d)))
+//@ func writeDescriptorAVCVideo
+//@   requires aligned(w) && 0 <= wN(w) && wN(w) < 0x400000000000 && okAVCVideo(d)
+//@   modifies writer(w)
+//@   ensures [C14,C13,C09] body: wN(w) == old(wN(w)) + lenAVCVideo(d) && aligned(w) && result == nil
+//@   ensures [C14,C13,C09] prefix: wPrefix(w)
+
+//@ func calcDescriptorComponentLength
+//@   requires d != nil ==> okComponent(d)
+//@   ensures [C14,C13,C09] len: result == ite(d == nil, 0, u8(lenComponent(d)))
+//@ func writeDescriptorComponent
+//@   requires aligned(w) && 0 <= wN(w) && wN(w) < 0x400000000000 && okComponent(d)
+//@   modifies writer(w)
+//@   ensures [C14,C13,C09] body: wN(w) == old(wN(w)) + lenComponent(d) && aligned(w) && result == nil
+//@   ensures [C14,C13,C09] prefix: wPrefix(w)
+
+//@ func calcDescriptorDataStreamAlignmentLength
+//@   requires d != nil ==> okDataStreamAlignment(d)
+//@   ensures [C14,C13,C09] len: result == ite(d == nil, 0, u8(lenDataStreamAlignment(d)))
+//@ func writeDescriptorDataStreamAlignment
+//@   requires aligned(w) && 0 <= wN(w) && wN(w) < 0x400000000000 && okDataStreamAlignment(d)
+//@   modifies writer(w)
+//@   ensures [C14,C13,C09] body: wN(w) == old(wN(w)) + lenDataStreamAlignment(d) && aligned(w) && result == nil
+//@   ensures [C14,C13,C09] prefix: wPrefix(w)
+
+//@ func calcDescriptorEnhancedAC3Length
+//@   requires d != nil ==> okEnhancedAC3(d)
+//@   ensures [C14,C13,C09] len: result == ite(d == nil, 0, u8(lenEnhancedAC3(d)))
+//@ func writeDescriptorEnhancedAC3
+//@   requires aligned(w) && 0 <= wN(w) && wN(w) < 0x400000000000 && okEnhancedAC3(d)
+//@   modifies writer(w)
+//@   ensures [C14,C13,C09] body: wN(w) == old(wN(w)) + lenEnhancedAC3(d) && aligned(w) && result == nil
+//@   ensures [C14,C13,C09] prefix: wPrefix(w)
+
+//@ func calcDescriptorISO639LanguageAndAudioTypeLength
+//@   requires d != nil ==> okISO639LanguageAndAudioType(d)
+//@   ensures [C14,C13,C09] len: result == ite(d == nil, 0, u8(lenISO639LanguageAndAudioType(d)))
+//@ func writeDescriptorISO639LanguageAndAudioType
+//@   requires aligned(w) && 0 <= wN(w) && wN(w) < 0x400000000000 && okISO639LanguageAndAudioType(d)
+//@   modifies writer(w)
+//@   ensures [C14,C13,C09] body: wN(w) == old(wN(w)) + lenISO639LanguageAndAudioType(d) && aligned(w) && result == nil
+//@   ensures [C14,C13,C09] prefix: wPrefix(w)
+
+//@ func calcDescriptorMaximumBitrateLength
+//@   requires d != nil ==> okMaximumBitrate(d)
+//@   ensures [C14,C13,C09] len: result == ite(d == nil, 0, u8(lenMaximumBitrate(d)))
+//@ func writeDescriptorMaximumBitrate
+//@   requires aligned(w) && 0 <= wN(w) && wN(w) < 0x400000000000 && okMaximumBitrate(d)
+//@   modifies writer(w)
+//@   ensures [C14,C13,C09] body: wN(w) == old(wN(w)) + lenMaximumBitrate(d) && aligned(w) && result == nil
+//@   ensures [C14,C13,C09] prefix: wPrefix(w)
+
+//@ func calcDescriptorNetworkNameLength
+//@   requires d != nil ==> okNetworkName(d)
+//@   ensures [C14,C13,C09] len: result == ite(d == nil, 0, u8(lenNetworkName(d)))
+//@ func writeDescriptorNetworkName
+//@   requires aligned(w) && 0 <= wN(w) && wN(w) < 0x400000000000 && okNetworkName(d)
+//@   modifies writer(w)
+//@   ensures [C14,C13,C09] body: wN(w) == old(wN(w)) + lenNetworkName(d) && aligned(w) && result == nil
+//@   ensures [C14,C13,C09] prefix: wPrefix(w)
+
+//@ func calcDescriptorPrivateDataIndicatorLength
+//@   requires d != nil ==> okPrivateDataIndicator(d)
+//@   ensures [C14,C13,C09] len: result == ite(d == nil, 0, u8(lenPrivateDataIndicator(d)))
+//@ func writeDescriptorPrivateDataIndicator
+//@   requires aligned(w) && 0 <= wN(w) && wN(w) < 0x400000000000 && okPrivateDataIndicator(d)
+//@   modifies writer(w)
+//@   ensures [C14,C13,C09] body: wN(w) == old(wN(w)) + lenPrivateDataIndicator(d) && aligned(w) && result == nil
+//@   ensures [C14,C13,C09] prefix: wPrefix(w)
+
+//@ func calcDescriptorPrivateDataSpecifierLength
+//@   requires d != nil ==> okPrivateDataSpecifier(d)
+//@   ensures [C14,C13,C09] len: result == ite(d == nil, 0, u8(lenPrivateDataSpecifier(d)))
+//@ func writeDescriptorPrivateDataSpecifier
+//@   requires aligned(w) && 0 <= wN(w) && wN(w) < 0x400000000000 && okPrivateDataSpecifier(d)
+//@   modifies writer(w)
+//@   ensures [C14,C13,C09] body: wN(w) == old(wN(w)) + lenPrivateDataSpecifier(d) && aligned(w) && result == nil
+//@   ensures [C14,C13,C09] prefix: wPrefix(w)
+
+//@ func calcDescriptorRegistrationLength
+//@   requires d != nil ==> okRegistration(d)
+//@   ensures [C14,C13,C09] len: result == ite(d == nil, 0, u8(lenRegistration(d)))
+//@ func writeDescriptorRegistration
+//@   requires aligned(w) && 0 <= wN(w) && wN(w) < 0x400000000000 && okRegistration(d)
+//@   modifies writer(w)
+//@   ensures [C14,C13,C09] body: wN(w) == old(wN(w)) + lenRegistration(d) && aligned(w) && result == nil
+//@   ensures [C14,C13,C09] prefix: wPrefix(w)
+
+//@ func calcDescriptorServiceLength
+//@   requires d != nil ==> okService(d)
+//@   ensures [C14,C13,C09] len: result == ite(d == nil, 0, u8(lenService(d)))
+//@ func writeDescriptorService
+//@   requires aligned(w) && 0 <= wN(w) && wN(w) < 0x400000000000 && okService(d)
+//@   modifies writer(w)
+//@   ensures [C14,C13,C09] body: wN(w) == old(wN(w)) + lenService(d) && aligned(w) && result == nil
+//@   ensures [C14,C13,C09] prefix: wPrefix(w)
+
+//@ func calcDescriptorShortEventLength
+//@   requires d != nil ==> okShortEvent(d)
+//@   ensures [C14,C13,C09] len: result == ite(d == nil, 0, u8(lenShortEvent(d)))
+//@ func writeDescriptorShortEvent
+//@   requires aligned(w) && 0 <= wN(w) && wN(w) < 0x400000000000 && okShortEvent(d)
+//@   modifies writer(w)
+//@   ensures [C14,C13,C09] body: wN(w) == old(wN(w)) + lenShortEvent(d) && aligned(w) && result == nil
+//@   ensures [C14,C13,C09] prefix: wPrefix(w)
+
+//@ func calcDescriptorStreamIdentifierLength
+//@   requires d != nil ==> okStreamIdentifier(d)
+//@   ensures [C14,C13,C09] len: result == ite(d == nil, 0, u8(lenStreamIdentifier(d)))
+//@ func writeDescriptorStreamIdentifier
+//@   requires aligned(w) && 0 <= wN(w) && wN(w) < 0x400000000000 && okStreamIdentifier(d)
+//@   modifies writer(w)
+//@   ensures [C14,C13,C09] body: wN(w) == old(wN(w)) + lenStreamIdentifier(d) && aligned(w) && result == nil
+//@   ensures [C14,C13,C09] prefix: wPrefix(w)
+
+//@ func calcDescriptorUnknownLength
+//@   requires d != nil ==> okUnknown(d)
+//@   ensures [C14,C13,C09] len: result == ite(d == nil, 0, u8(lenUnknown(d)))
+//@ func writeDescriptorUnknown
+//@   requires aligned(w) && 0 <= wN(w) && wN(w) < 0x400000000000 && okUnknown(d)
+//@   modifies writer(w)
+//@   ensures [C14,C13,C09] body: wN(w) == old(wN(w)) + lenUnknown(d) && aligned(w) && result == nil
+//@   ensures [C14,C13,C09] prefix: wPrefix(w)
+
+//@ func calcDescriptorContentLength
+//@   requires d != nil ==> okContent(d)
+//@   ensures [C14,C13,C09] len: result == ite(d == nil, 0, u8(lenContent(d)))
+//@ func writeDescriptorContent
+//@   requires aligned(w) && 0 <= wN(w) && wN(w) < 0x400000000000 && okContent(d)
+//@   modifies writer(w)
+//@   loop 0 invariant [C14,C13,C09] items: rangeindex == iter - 1 && iter <= len(d.Items) && aligned(w) && b.err == nil && wN(w) == atentry(wN(w)) + 2 * iter && wPrefix(w)
+//@   ensures [C14,C13,C09] body: wN(w) == old(wN(w)) + lenContent(d) && aligned(w) && result == nil
+//@   ensures [C14,C13,C09] prefix: wPrefix(w)
+
+//@ func calcDescriptorParentalRatingLength
+//@   requires d != nil ==> okParentalRating(d)
+//@   ensures [C14,C13,C09] len: result == ite(d == nil, 0, u8(lenParentalRating(d)))
+//@ func writeDescriptorParentalRating
+//@   requires aligned(w) && 0 <= wN(w) && wN(w) < 0x400000000000 && okParentalRating(d)
+//@   modifies writer(w)
+//@   loop 0 invariant [C14,C13,C09] items: rangeindex == iter - 1 && iter <= len(d.Items) && aligned(w) && b.err == nil && wN(w) == atentry(wN(w)) + 4 * iter && wPrefix(w)
+//@   ensures [C14,C13,C09] body: wN(w) == old(wN(w)) + lenParentalRating(d) && aligned(w) && result == nil
+//@   ensures [C14,C13,C09] prefix: wPrefix(w)
+
+//@ func calcDescriptorSubtitlingLength
+//@   requires d != nil ==> okSubtitling(d)
+//@   ensures [C14,C13,C09] len: result == ite(d == nil, 0, u8(lenSubtitling(d)))
+//@ func writeDescriptorSubtitling
+//@   requires aligned(w) && 0 <= wN(w) && wN(w) < 0x400000000000 && okSubtitling(d)
+//@   modifies writer(w)
+//@   loop 0 invariant [C14,C13,C09] items: rangeindex == iter - 1 && iter <= len(d.Items) && aligned(w) && b.err == nil && wN(w) == atentry(wN(w)) + 8 * iter && wPrefix(w)
+//@   ensures [C14,C13,C09] body: wN(w) == old(wN(w)) + lenSubtitling(d) && aligned(w) && result == nil
+//@   ensures [C14,C13,C09] prefix: wPrefix(w)
+
+//@ func calcDescriptorTeletextLength
+//@   requires d != nil ==> okTeletext(d)
+//@   ensures [C14,C13,C09] len: result == ite(d == nil, 0, u8(lenTeletext(d)))
+//@ func writeDescriptorTeletext
+//@   requires aligned(w) && 0 <= wN(w) && wN(w) < 0x400000000000 && okTeletext(d)
+//@   modifies writer(w)
+//@   loop 0 invariant [C14,C13,C09] items: rangeindex == iter - 1 && iter <= len(d.Items) && aligned(w) && b.err == nil && wN(w) == atentry(wN(w)) + 5 * iter && wPrefix(w)
+//@   ensures [C14,C13,C09] body: wN(w) == old(wN(w)) + lenTeletext(d) && aligned(w) && result == nil
+//@   ensures [C14,C13,C09] prefix: wPrefix(w)
+
+//@ func calcDescriptorUserDefinedLength
+//@   requires 0 <= len(d) && len(d) <= 255
+//@   ensures [C14,C13,C09] len: result == u8(len(d))
+//@ func writeDescriptorUserDefined
+//@   requires aligned(w) && 0 <= wN(w) && wN(w) < 0x400000000000 && 0 <= len(d) && len(d) <= 255 && allocated(d)
+//@   modifies writer(w)
+//@   ensures [C14,C13,C09] body: wN(w) == old(wN(w)) + len(d) && aligned(w) && result == nil
+//@   ensures [C14,C13,C09] prefix: wPrefix(w)
+
+// The body length of a descriptor as a function of its tag and content; the four tags whose writers are not under
+// contract are excluded from what is claimed.
+//@ func calcDescriptorLength
+//@   requires descOK(d)
+//@   ensures [C14,C13,C09] len: tagCovered(d.Tag) ==> result == u8(dLen(d))
+
+// writeDescriptor: the length byte announces exactly the number of body bytes that follow, for every covered tag.
+//@ func writeDescriptor
+//@   requires aligned(w) && 0 <= wN(w) && wN(w) < 0x200000000000 && descOK(d) && bodyPresent(d) && dLen(d) <= 255
+//@   modifies writer(w)
+//@   let n0 = old(wN(w))
+//@   ensures [C14,C13,C09] header: result1 == nil ==> wb(w, n0, 0) == d.Tag && (tagCovered(d.Tag) ==> wb(w, n0, 1) == u8(dLen(d)))
+//@   ensures [C14,C13,C09] whole: tagCovered(d.Tag) && result1 == nil ==> wN(w) == n0 + 2 + dLen(d) && result0 == 2 + dLen(d) && aligned(w)
+
+// Not under contract (items of variable size, nested loops, pointer-to-slice bodies): nothing is assumed about
+// the lengths they compute or emit, and nothing is claimed for their tags.
+//@ extern calcDescriptorExtendedEventLength
+//@ extern calcDescriptorExtensionLength
+//@ extern calcDescriptorLocalTimeOffsetLength
+//@ extern calcDescriptorVBIDataLength
+//@ extern writeDescriptorExtendedEvent
+//@   modifies writer(w)
+//@   ensures [C14,C13,C09] prefix: wPrefix(w)
+//@ extern writeDescriptorExtension
+//@   modifies writer(w)
+//@   ensures [C14,C13,C09] prefix: wPrefix(w)
+//@ extern writeDescriptorLocalTimeOffset
+//@   modifies writer(w)
+//@   ensures [C14,C13,C09] prefix: wPrefix(w)
+//@ extern writeDescriptorVBIData
+//@   modifies writer(w)
+//@   ensures [C14,C13,C09] prefix: wPrefix(w)
+// END generated descriptor write contracts
